@@ -124,27 +124,28 @@ def revertTransaction (now : Time) (id : Nat) (at_ : Option Time) (d : Db) : Exc
       let g : Tx → Tx := fun x => { x with revertedAt := some w, updatedAt := w }
       .ok ((g t, true), d.modifyTx id g)
 
-/-- `UpdateTransactionMetadata(id, m, at)`. -/
+/-- `UpdateTransactionMetadata(id, m, at)`:
+    `UPDATE … SET metadata = metadata || m, updated_at … WHERE id = … AND NOT (metadata @> m)`. -/
 def updateTxMeta (now : Time) (id : Nat) (m : Meta) (at_ : Option Time) (d : Db) : Except StoreErr ((Tx × Bool) × Db) :=
   match d.findTx id with
   | none => .error .notFound
   | some t =>
-    if metaContains t.metadata m then .ok ((t, false), d)
-    else
-      let g : Tx → Tx := fun x =>
-        { x with metadata := metaMerge x.metadata m, updatedAt := (match at_ with | some x => x | none => now) }
-      .ok ((g t, true), d.modifyTx id g)
+    let g : Tx → Tx := fun x =>
+      if metaContains x.metadata m then x
+      else { x with metadata := metaMerge x.metadata m, updatedAt := (match at_ with | some x => x | none => now) }
+    .ok ((g t, !metaContains t.metadata m), d.modifyTx id g)
 
-/-- `DeleteTransactionMetadata(id, key, at)`. -/
+/-- `DeleteTransactionMetadata(id, key, at)`:
+    `UPDATE … SET metadata = metadata - key, updated_at … WHERE id = … AND metadata -> key IS NOT NULL`. -/
 def deleteTxMeta (now : Time) (id : Nat) (key : String) (at_ : Option Time) (d : Db) : Except StoreErr ((Tx × Bool) × Db) :=
   match d.findTx id with
   | none => .error .notFound
   | some t =>
-    if t.metadata.contains key then
-      let g : Tx → Tx := fun x =>
+    let g : Tx → Tx := fun x =>
+      if x.metadata.contains key then
         { x with metadata := x.metadata.erase key, updatedAt := (match at_ with | some x => x | none => now) }
-      .ok ((g t, true), d.modifyTx id g)
-    else .ok ((t, false), d)
+      else x
+    .ok ((g t, t.metadata.contains key), d.modifyTx id g)
 
 /-! ### accounts -/
 
